@@ -7,7 +7,7 @@ rc_all=0
 for i in $(seq -w 1 20); do
   id=C$i
   s=$(date +%s)
-  ./check $id $tier > "$OUT/$id.$tier.log" 2>&1
+  timeout ${PER:-7200} ./check $id $tier > "$OUT/$id.$tier.log" 2>&1
   rc=$?
   e=$(( $(date +%s) - s ))
   echo "$id rc=$rc ${e}s $(grep -c '^KNOWN-FINDING' "$OUT/$id.$tier.log") known $(grep -c '^VIOLATION' "$OUT/$id.$tier.log") violations"
